@@ -47,6 +47,13 @@ def run(P, rep, tier):
     rep.floor("C12.R2", 9)
     rep.floor("C12.R3", 6)
     rep.floor("C12.R4", 5)
+    # refinement against the pinned tree for every function the rules above looked at (rules/pinned.py)
+    import os as _os
+
+    if not _os.environ.get("MDSA_PINNED_GEN"):
+        from .pinned import refine
+
+        refine(P, rep, ctx, "C12")
 
 
 def metaclass_of(P, cq: str) -> Optional[str]:
